@@ -236,6 +236,18 @@ impl SparqlDatabase {
         }
     }
 
+    /// Encodes a term that a line loader has already cleaned: an IRI without its
+    /// brackets or a literal decoded to its lexical value is stored as it is; only a
+    /// quoted triple still carries surface syntax and goes through `encode_term_star`.
+    fn encode_loaded_term(&self, term: &str) -> u32 {
+        if term.starts_with("<<") && term.ends_with(">>") {
+            self.encode_term_star(term)
+        } else {
+            let mut dict = self.dictionary.write().unwrap();
+            dict.encode(term)
+        }
+    }
+
     /// Decode a u32 ID that may be a regular dictionary ID or a quoted triple ID.
     pub fn decode_any(&self, id: u32) -> Option<String> {
         if is_quoted_triple_id(id) {
@@ -1396,9 +1408,9 @@ impl SparqlDatabase {
         for triple_strings in non_encoded_triples {
             for (subject, predicate, object) in triple_strings {
                 let main_triple = Triple {
-                    subject: self.encode_term_star(&subject),
-                    predicate: self.encode_term_star(&predicate),
-                    object: self.encode_term_star(&object),
+                    subject: self.encode_loaded_term(&subject),
+                    predicate: self.encode_loaded_term(&predicate),
+                    object: self.encode_loaded_term(&object),
                 };
                 encoded_triples.push(main_triple);
             }
@@ -1429,20 +1441,18 @@ impl SparqlDatabase {
             if let Some((subject, predicate, object, graph)) =
                 self.parse_nquads_line(line_without_dot)
             {
-                match graph {
-                    Some(graph) => {
-                        self.add_quad_parts(&subject, &predicate, &object, &graph);
-                    }
-                    None => {
-                        let quad = Quad {
-                            subject: self.encode_term_star(&subject),
-                            predicate: self.encode_term_star(&predicate),
-                            object: self.encode_term_star(&object),
-                            graph: GraphId::Default,
-                        };
-                        self.add_quad(quad);
-                    }
-                }
+                // The terms are already cleaned (literals decoded): store them as they are.
+                let graph = match graph {
+                    Some(graph) => GraphId::Named(self.encode_loaded_term(&graph)),
+                    None => GraphId::Default,
+                };
+                let quad = Quad {
+                    subject: self.encode_loaded_term(&subject),
+                    predicate: self.encode_loaded_term(&predicate),
+                    object: self.encode_loaded_term(&object),
+                    graph,
+                };
+                self.add_quad(quad);
             }
         }
     }
